@@ -206,6 +206,17 @@ def derive_detour(case, rng):
     return dict(case, id=case["id"] + "-detour", build=script + fix, rel={"kind": "perm", "base_id": case["id"]})
 
 
+def derive_copy(case, rng):
+    """the same network, built, possibly used, then COPIED (deepcopy or pickle round trip): the copy is what is stepped"""
+    net = case["net"]
+    script = [["link", k["up"], l, k["down"]] for l, k in net["links"].items()]
+    script += [["origin", o, k["node"]] for o, k in net["origins"].items()] + [["dest", d_, k["node"]] for d_, k in net["dests"].items()]
+    if rng.random() < 0.5:
+        script.append(["use", "np"])    # (CasADi symbols cannot be pickled outside a CasADi pickle context: not the library's business)
+    script.append(["copy", rng.choice(["deepcopy", "pickle"])])
+    return dict(case, id=case["id"] + "-copy", build=script, rel={"kind": "perm", "base_id": case["id"]})
+
+
 def derive_dupnames(case, rng):
     """every element of a kind carries the same name: names are labels, not identifiers (NumPy observation only)"""
     net = case["net"]
@@ -342,7 +353,7 @@ PLANS = {
     "C13": dict(rel=rel_C13, want={"np": False, "spy": True, "fn": []},
                 quick=dict(n=3, m=3, variants=2, generic=1, corners=1, rand=40),
                 thorough=dict(n=4, m=4, variants=2, generic=1, corners=3, rand=400)),
-    "C14": dict(rel=rel_C14, derive=("perm", "scale", "dupnames", "detour"), want={"np": True, "fn": fns((0,)) + fns((1,), syms=("SX",))},
+    "C14": dict(rel=rel_C14, derive=("perm", "scale", "dupnames", "detour", "copy"), want={"np": True, "fn": fns((0,)) + fns((1,), syms=("SX",))},
                 quick=dict(n=3, m=3, variants=3, generic=1, corners=0, rand=30, nderive=2),
                 thorough=dict(n=4, m=4, variants=2, generic=1, corners=1, rand=300, nderive=2)),
     "C18": dict(rel=rel_C18, family="neutral", want={"np": True, "twin": True, "fn": fns((0,))},
@@ -399,6 +410,8 @@ def run(pid: str, tier: str, plan=None, extra_cases=None) -> dict:
                     derived.append(dict(derive_perm(c, rng), id=f"{c['id']}-perm{k}"))
                 if "detour" in plan["derive"] and k == 0:
                     derived.append(dict(derive_detour(c, rng), id=f"{c['id']}-detour"))
+                if "copy" in plan["derive"] and k == 0:
+                    derived.append(dict(derive_copy(c, rng), id=f"{c['id']}-copy"))
                 if "scale" in plan["derive"]:
                     derived.append(dict(derive_scale(c, rng), id=f"{c['id']}-scale{k}"))
                 if "dupnames" in plan["derive"] and k == 0:
